@@ -178,6 +178,12 @@ func vfC05Gen(rt *rapid.T) vfC05Case {
 	}
 	c.Cause = rapid.SampledFrom(causes).Draw(rt, "cause")
 	c.Hold = rapid.SampledFrom([]int{0, 0, 1, 6}).Draw(rt, "hold")
+	if c.Op == vfC05OpConnect && c.Gate != vfC05GConnecting && len(c.pre()) >= 2 && c.Hold > 4 {
+		// close() waits up to 5 s per reserved connect-time channel, one after the other; after the first timeout it
+		// spawns a close() that blocks on connectMu (a mutex: not durable for synctest), so the virtual clock could
+		// not advance through the second wait. Keep the hold below the first timeout for multi-channel connects.
+		c.Hold = 4
+	}
 	return c
 }
 
